@@ -28,8 +28,14 @@ package server
 //@ spec wfTasks(e *MetaCDC) bool = e != nil && e.metaStoreFactory != nil && (forall a string, b string :: a in e.cdcTasks.data && b in e.cdcTasks.data && a != b ==> e.cdcTasks.data[a] != e.cdcTasks.data[b])
 //@ spec wfEntities(e *MetaCDC) bool = (forall a string :: a in e.replicateEntityMap.data ==> e.replicateEntityMap.data[a] != nil && e.replicateEntityMap.data[a].taskQuitFuncs != nil) && (forall a string, b string :: a in e.replicateEntityMap.data && b in e.replicateEntityMap.data && a != b ==> e.replicateEntityMap.data[a] != e.replicateEntityMap.data[b] && e.replicateEntityMap.data[a].taskQuitFuncs != e.replicateEntityMap.data[b].taskQuitFuncs)
 
+// pauseCalls / lastPausedTask: invocations of pauseTaskWithReason and the task named by the last one
+//@ ghost var pauseCalls int
+//@ ghost var lastPausedTask string
 //@ func (*MetaCDC).pauseTaskWithReason
 //@   props C06 C11
+//@   ghostset return pauseCalls := pauseCalls + 1
+//@   ghostset return lastPausedTask := taskID
+//@   ensures [the-pause-is-recorded-for-the-named-task] pauseCalls == old(pauseCalls) + 1 && lastPausedTask == taskID
 // the task ids of stored / running tasks were checked when the task was created (validCreateRequest) or were generated
 //@   trustpre WithLabelValues
 //@   requires wfTasks(e) && wfEntities(e)
@@ -359,15 +365,21 @@ package server
 // the batch callback of the DML loop (startReplicateDMLMsg): writes the packs of a batch in order, then persists one
 // checkpoint per (task, collection, source channel)
 //@ func (*MetaCDC).startReplicateDMLMsg$1$2
-//@   props C05
+//@   props C05 C06
 // the task ids of stored / running tasks were checked when the task was created (validCreateRequest) or were generated
 //@   trustpre WithLabelValues
 //@   requires deref(e) != nil && deref(entity) != nil && deref(entity).writerObj != nil && deref(e).metaStoreFactory != nil
 //@   requires forall i int :: {replicateMsgs[i]} 0 <= i && i < len(replicateMsgs) ==> replicateMsgs[i] != nil && replicateMsgs[i].MsgPack != nil && len(replicateMsgs[i].MsgPack.EndPositions) >= 1 && replicateMsgs[i].TaskID != ""
-//@   opaque pauseTaskWithReason replicateMetric
-//@   private meta.PositionInfo.DataPair commonpb.KeyDataPair.Data UpdatePositionInfo.* maps(string;*UpdatePositionInfo) ackedIDs positionWrites writeCalls writeFailures MetaCDC.metaStoreFactory api.ReplicateMsg.* arrays(*api.ReplicateMsg) msgstream.MsgPack.EndPositions arrays(*msgpb.MsgPosition) ReplicateEntity.writerObj
+//@   opaque replicateMetric
+// the task table is well formed whenever the callback runs (established by Create / ReloadTask / startInternal)
+//@   trustpre pauseTaskWithReason
+//@   private meta.PositionInfo.DataPair commonpb.KeyDataPair.Data UpdatePositionInfo.* maps(string;*UpdatePositionInfo) ackedIDs positionWrites writeCalls writeFailures pauseCalls lastPausedTask MetaCDC.metaStoreFactory api.ReplicateMsg.* arrays(*api.ReplicateMsg) msgstream.MsgPack.EndPositions arrays(*msgpb.MsgPosition) ReplicateEntity.writerObj
 //@   ensures [checkpoints-are-written-only-after-every-pack-of-the-batch-was-written-successfully] positionWrites > old(positionWrites) ==> writeCalls == old(writeCalls) + len(replicateMsgs) && writeFailures == old(writeFailures)
 //@   ensures [a-failed-write-writes-no-checkpoint] writeFailures > old(writeFailures) ==> positionWrites == old(positionWrites) && result != nil
+// C06: the task that owns the rejected pack is paused by the callback itself (the caller only knows the task whose
+// message triggered the flush; the final flush at shutdown has no caller that pauses at all)
+//@   ensures [a-rejected-write-pauses-a-task] writeFailures > old(writeFailures) ==> pauseCalls > old(pauseCalls)
+//@   ensures [every-failure-of-the-callback-pauses-a-task] result != nil ==> pauseCalls > old(pauseCalls)
 //@   loop 1 invariant writeCalls == old(writeCalls) + rangeindex + 1 && writeFailures == old(writeFailures)
 //@   loop 2 invariant writeCalls == old(writeCalls) + len(replicateMsgs) && writeFailures == old(writeFailures)
 //@   loop 1 invariant positionWrites == old(positionWrites) && deref(e) == old(deref(e)) && deref(entity) == old(deref(entity))
